@@ -29,10 +29,45 @@ fn result() -> String {
 
 /// Runs one project through the loader on a fresh thread. Returns the emitted JS or an error text.
 pub fn loader_emit(files: &HashMap<String, String>, root: &str, config: &str) -> Result<String, String> {
+    loader_emit_after(files, root, config, "")
+}
+
+/// As `loader_emit`, but on a loader instance that has already worked with another configuration (`prior`): it loaded that
+/// configuration and emitted the same module under it (result discarded) before the configuration under test is loaded.
+/// Bundler plugins reuse one instance and reload the configuration when it changes.
+pub fn loader_emit_after(files: &HashMap<String, String>, root: &str, config: &str, prior: &str) -> Result<String, String> {
     let files = files.clone();
     let root = root.to_string();
     let config = config.to_string();
+    let prior = prior.to_string();
     std::thread::spawn(move || {
+        if !prior.is_empty() {
+            if !with_str(&prior, |p, l| abi::load_config(p, l)) {
+                return Err("load_config (prior configuration) failed".to_string());
+            }
+            if let Some(src) = files.get(&root) {
+                let id = with_str(&root, |pp, pl| with_str(src, |sp, sl| abi::initiate_task(pp, pl, sp, sl)));
+                if id != 0 {
+                    for _ in 0..64 {
+                        if !abi::get_required_files(id) {
+                            break;
+                        }
+                        let req = result();
+                        let req: Vec<&str> = req.split('\n').filter(|x| !x.is_empty()).collect();
+                        if req.is_empty() {
+                            break;
+                        }
+                        for r in req {
+                            if let Some(s) = files.get(r) {
+                                with_str(r, |pp, pl| with_str(s, |sp, sl| abi::load_file(id, pp, pl, sp, sl)));
+                            }
+                        }
+                    }
+                    abi::emit_js(id);
+                    abi::free_task(id);
+                }
+            }
+        }
         if !config.is_empty() && !with_str(&config, |p, l| abi::load_config(p, l)) {
             return Err("load_config failed".to_string());
         }
